@@ -20,7 +20,7 @@ namespace c04 {
     g_triples[fam][shape].insert(types);
   }
   long tuplesSame() { return (long)vh::tier(10000, 1000000); }
-  long tuplesMixed() { return (long)vh::tier(10000, 200000); }
+  long tuplesMixed() { return (long)vh::tier(10000, 500000); }
 
   const char *famName(int op, int form)
   {
@@ -51,7 +51,12 @@ namespace c04 {
     vh::evaluated(vh::hash64(h, (uint64_t)k), true);
   }
   std::string Triple::key(const char *what) const { return std::string("C04:") + fam + "/" + shape + ":" + what; }
-  std::string Triple::ctx(long k) const { return "#" + std::to_string(k) + " family=" + fam + " types=" + types + " shape=" + shape; }
+  // "#<part>": the driver replays exactly that part (same seed => same tuples)
+  static int g_part = -1;
+  std::string Triple::ctx(long k) const
+  {
+    return "#" + std::to_string(g_part) + " tuple=" + std::to_string(k) + " family=" + fam + " types=" + types + " shape=" + shape;
+  }
 
   // ---------------------------------------------------------------- printing
   std::string numLD(LD v)
@@ -199,6 +204,7 @@ int main(int argc, char **argv)
           close(fd);
         }
       }
+      c04::g_part = i;
       parts[i].fn();
       std::string path = vh::st().outDir + "/triples." + std::to_string(i);
       FILE *f = fopen(path.c_str(), "w");
